@@ -264,9 +264,7 @@ class CFG:
         while stack:
             n = stack.pop()
             for s, lab in self.succ[n]:
-                if n in blocked_set and lab != "exc" and n is not start:
-                    continue
-                if n is start and n in blocked_set and lab != "exc" and False:
+                if n in blocked_set and lab != "exc":
                     continue
                 if not follow_exc and lab == "exc":
                     continue
